@@ -609,6 +609,28 @@ fn check_wfault(c: &WFault, rec: &mut Recorder) -> Result<(), (String, J)> {
                 cj,
             ));
         }
+        // a writer with no room left answers Ok(0); the reason is then the one the
+        // standard library gives for an incomplete write
+        {
+            let mut w = FaultWriter::full_after(k);
+            let verdict = match &c.mode {
+                Mode::Slice => guarded(|| xt::translate_slice(&text, Some(c.a.xt()), c.to.xt(), &mut w)),
+                Mode::Reader(s) => guarded(|| xt::translate_reader(SchedReader::new(&text, s.clone()), Some(c.a.xt()), c.to.xt(), &mut w)),
+            };
+            let mut cj = cj.clone();
+            cj["full"] = json!(true);
+            let reason = std::io::Write::write_all(&mut FaultWriter::full_after(0), b"x").expect_err("a full writer refuses").to_string();
+            match verdict {
+                Verdict::Err(e) => {
+                    if !(e.contains(&reason) || (c.to == Fmt::Msgpack && phrases.iter().any(|p| e.contains(p.as_str())))) {
+                        return Err((format!("[{} {} -> {}] the writer was full at byte {} of {} but the error text does not carry the cause ({:?}): {:?}", c.a.name(), c.mode.class(), c.to.name(), k, total, reason, e), cj));
+                    }
+                }
+                Verdict::Ok => return Err((format!("[{} -> {}] the writer was full at byte {} of {} but the translation reported success", c.a.name(), c.to.name(), k, total), cj)),
+                Verdict::Panic(p) => return Err((format!("panic with a writer full at byte {}: {}", k, p), cj)),
+            }
+            rec.class("wfault:full_writer");
+        }
         let class = classify_failing_write(w.failing_buf.as_deref().unwrap_or(b""), c.to);
         let nontrivial = k > 0;
         rec.count(if nontrivial { Some(hash_bytes(&[&text, c.to.name().as_bytes(), &(k as u64).to_le_bytes(), c.mode.class().as_bytes()])) } else { None });
@@ -627,12 +649,12 @@ impl Check for C11 {
         "fault_enumeration"
     }
     fn rule(&self) -> String {
-        "Three planted-defect families over generated common-model documents. 'syntax': one byte/token deleted, inserted, replaced or the text truncated at a drawn position (MessagePack: truncation and reserved marker only); kept when the independent reader rejects the text; oracle: xt fails with the same text for every streaming target that accepts all values of the source, the text does not contain 'translation failed', and (JSON slice/reader, TOML, YAML slice) equals the message the same parser crate gives when driven by a harness sink visitor that mirrors xt's drive. 'unrep': one value the target must refuse (null or u64>i64::MAX to TOML; null/sequence/map key to JSON; binary to YAML) planted at EVERY node path of the tree; oracle: Err whose text contains a reason obtained at run time by running the target serializer standalone on that leaf (TOML: by both construction routes). 'wfault': the writer accepts exactly k bytes and then fails, for every k below the fault-free output length (all k up to 160, 160 spread values beyond), all pairs and supply modes; oracle: Err whose text contains INJECTED-W-k (MessagePack target: the phrase rmp_serde prints for a failed write, obtained from standalone failing writes); the failing write is classified (separator, bracket, string piece, scalar, newline/marker, chunk). One evaluation = one planted defect; non-trivial = defect not at offset/node 0; distinct by hash of (text, target, position).".into()
+        "Three planted-defect families over generated common-model documents. 'syntax': one byte/token deleted, inserted, replaced or the text truncated at a drawn position (MessagePack: truncation and reserved marker only); kept when the independent reader rejects the text; oracle: xt fails with the same text for every streaming target that accepts all values of the source, the text does not contain 'translation failed', and (JSON slice/reader, TOML, YAML slice) equals the message the same parser crate gives when driven by a harness sink visitor that mirrors xt's drive. 'unrep': one value the target must refuse (null or u64>i64::MAX to TOML; null/sequence/map key to JSON; binary to YAML) planted at EVERY node path of the tree; oracle: Err whose text contains a reason obtained at run time by running the target serializer standalone on that leaf (TOML: by both construction routes). 'wfault': the writer accepts exactly k bytes and then fails, for every k below the fault-free output length (all k up to 160, 160 spread values beyond), all pairs and supply modes; oracle: Err whose text contains INJECTED-W-k (MessagePack target: the phrase rmp_serde prints for a failed write, obtained from standalone failing writes); the failing write is classified (separator, bracket, string piece, scalar, newline/marker, chunk); the same for a writer that answers Ok(0) once k bytes were taken (cause = the standard library's incomplete-write message, obtained at run time). One evaluation = one planted defect; non-trivial = defect not at offset/node 0; distinct by hash of (text, target, position).".into()
     }
     fn assumptions(&self) -> Vec<String> {
         vec![
-            "positions in messages are not required to be stream-relative (the statement does not say so); YAML reader mode and MessagePack slice mode are only checked for target-independence and absence of 'translation failed'".into(),
-            "an input the independent reader rejects but xt accepts is not a C11 matter and is skipped".into(),
+            "positions in messages are not required to be stream-relative (the statement does not say so); MessagePack slice mode is only checked for target-independence and absence of 'translation failed'; YAML reader mode must carry libyaml's description(s) and positions as libyaml reports them for the same text".into(),
+            "an input the independent reader rejects but xt accepts is skipped, except for YAML, where the independent reader is libyaml itself".into(),
         ]
     }
     fn units(&self, tier: Tier) -> Vec<Unit> {
@@ -743,15 +765,17 @@ impl Check for C11 {
             "wfault" => {
                 let to = Fmt::from_name(case["to"].as_str().ok_or("no to")?).ok_or("bad to")?;
                 let k = case["k"].as_u64().ok_or("no k")? as usize;
-                let mut w = FaultWriter::new(Some(k), None);
+                let full = case["full"].as_bool().unwrap_or(false);
+                let mut w = if full { FaultWriter::full_after(k) } else { FaultWriter::new(Some(k), None) };
                 let verdict = match &mode {
                     Mode::Slice => guarded(|| xt::translate_slice(&bytes, Some(a.xt()), to.xt(), &mut w)),
                     Mode::Reader(s) => guarded(|| xt::translate_reader(SchedReader::new(&bytes, s.clone()), Some(a.xt()), to.xt(), &mut w)),
                 };
+                let reason = if full { std::io::Write::write_all(&mut FaultWriter::full_after(0), b"x").expect_err("a full writer refuses").to_string() } else { format!("INJECTED-W-{}", k) };
                 match verdict {
                     Verdict::Err(e) => {
                         let phrases = if to == Fmt::Msgpack { msgpack_write_failure_phrases() } else { vec![] };
-                        if e.contains(&format!("INJECTED-W-{}", k)) || phrases.iter().any(|p| e.contains(p.as_str())) {
+                        if e.contains(&reason) || phrases.iter().any(|p| e.contains(p.as_str())) {
                             Ok(())
                         } else {
                             Err(format!("writer failed at byte {} but the error text does not carry the cause: {:?}", k, e))
